@@ -12,7 +12,8 @@ RULE = ('random literal trees (depth <= 5: ints in decimal/hex/octal/binary with
         'with exponents and overflow to inf, complex, strings and bytes with every prefix, both quote kinds, triple quotes, '
         'escapes, empty pieces and 1-4 adjacent pieces, True/False/None, lists, tuples incl. () (x) (x,), dicts) rendered by a '
         'layout generator independent of pprint (blanks, line breaks and comments inside brackets, backslash continuations, '
-        'trailing commas), written as the value of a binding statement; plus a near-miss stream just outside the grammar. '
+        'trailing commas), written as the value of a binding statement; plus a near-miss stream just outside the grammar '
+        '(incl. adjacent str and bytes pieces mixed in every order, empty pieces included). '
         'Oracle: ast.literal_eval of the same text (value and type), rejection for near-misses. non-trivial = nesting depth '
         '>= 2 or trivia inside brackets, or a near-miss; distinct = distinct text')
 TRUSTED_BASE = ['Lean 4.33 kernel', 'axioms ⊆ {propext, Classical.choice, Quot.sound}', 'JSON glue (Gin/Drv/ParseDom)',
@@ -74,6 +75,21 @@ def gen_string(rng):
   for p in pieces[1:]:
     out += rng.choice([' ', '  ', '\t', '']) + p
   del sep
+  return out
+
+
+def gen_mixed_string(rng):
+  """Adjacent pieces of both kinds (str and bytes), often empty ones: Python rejects every such text."""
+  n = rng.choice([2, 2, 3, 4])
+  kinds = [rng.random() < 0.5 for _ in range(n)]
+  if all(kinds) or not any(kinds):
+    kinds[rng.randrange(n)] = not kinds[0]
+  out = ''
+  for i, b in enumerate(kinds):
+    piece = gen_string_piece(rng, b)
+    if rng.random() < 0.5:
+      piece = rng.choice(['b', 'B', 'rb'] if b else ['', 'r', 'u']) + rng.choice(["''", '""'])
+    out += (rng.choice([' ', '  ', '\t', '']) if i else '') + piece
   return out
 
 
@@ -139,7 +155,7 @@ def gen_cases(rng, tier, boost=1):
   for k in range(n):
     stats = {}
     if k % 5 == 4:
-      nm = rng.choice(NEAR_MISSES)
+      nm = rng.choice(NEAR_MISSES) if rng.random() < 0.8 else gen_mixed_string(rng)
       if rng.random() < 0.3 and nm not in ('1, 2', '', '# only a comment', ')', '1]'):
         nm = '[' + gen_lit(rng, 3) + ', ' + nm + ']'   # the near-miss nested inside a well-formed container
       yield {'dom': 'parse', 'text': 'x.p = ' + nm + rng.choice(['', '\n']), 'kind': 'near', 'value_text': nm}
